@@ -202,6 +202,25 @@ theorem aiwpsoW_ends (wmin wmax : ℝ) (n : ℕ) (hn : 0 < n) :
   · simp
   · rw [div_self hn']; ring
 
+/-! ### closed forms of the multiplicative decays (what a rewrite of the loop "in closed form" has to equal over `ℝ`) -/
+
+/-- SA: after `k` cooling steps `T = T0 · beta ^ k` -/
+theorem saT_closed_form (T0 beta : ℝ) (k : ℕ) : (fun T => saT T beta)^[k] T0 = T0 * beta ^ k := by
+  induction k with
+  | zero => simp
+  | succ k ih => rw [Function.iterate_succ_apply', ih, saT_real]; ring
+
+/-- WCA: after `k` updates `d_max = d0 · (1 - 1/N) ^ k`; in particular it is `0` from the first update on when `N = 1` -/
+theorem wcaDmax_closed_form (d0 : ℝ) (N k : ℕ) :
+    (fun d => wcaDmax d N)^[k] d0 = d0 * (1 - 1 / (N : ℝ)) ^ k := by
+  induction k with
+  | zero => simp
+  | succ k ih => rw [Function.iterate_succ_apply', ih, wcaDmax_real]; ring
+
+/-- WCA with a one-iteration budget: `d_max` is exactly `0` after the first update -/
+theorem wcaDmax_one_iteration (d0 : ℝ) : wcaDmax d0 1 = 0 := by
+  rw [wcaDmax_real]; simp
+
 /-! satisfiability of the hypotheses, on concrete numbers -/
 
 example : (0 : ℕ) < 20 ∧ (7 : ℕ) ≤ 20 ∧ (0.4 : ℝ) ≤ 0.9 := by norm_num
@@ -237,5 +256,8 @@ example : successLoop [(1 : ℕ), 5, 2] [3, 4, 9] = 2 := by decide
 #print axioms ihsBw_antitone
 #print axioms aiwpsoW_monotone
 #print axioms aiwpsoW_ends
+#print axioms saT_closed_form
+#print axioms wcaDmax_closed_form
+#print axioms wcaDmax_one_iteration
 
 end Opy
